@@ -1248,6 +1248,11 @@ func replayLine(line string) (out string) {
 		return replayPqfit(f, w32)
 	case f[0] == "bqfit" && len(f) == 9:
 		return replayBqfit(f, w32)
+	case f[0] == "pqe" && len(f) == 7:
+		ns, _ := strconv.Atoi(f[2])
+		k, _ := strconv.Atoi(f[3])
+		l, _ := strconv.Atoi(f[4])
+		return implPqe(f[1], ns, k, l, w32(5), w32(6))
 	case f[0] == "pqt" && len(f) == 6:
 		return "n/a (the tables a real Fit() left behind; k-means is not replayable from them: replay the pqfit line of the same case)"
 	case f[0] == "pqg" && len(f) == 10:
